@@ -143,4 +143,252 @@ example : ∃ C : Ctx 11 1 6, C.n = 13 ∧ KeyPoint C (.jac toyG) C.G := by
   refine ⟨⟨g, 13, hR, by decide, by decide⟩, rfl, toyG, rfl, ?_, Or.inr ⟨rfl, rfl⟩⟩
   exact ⟨hg.1, hg.2.1, AddSubgroup.mem_zmultiples g, hg.2.2.2⟩
 
+/-! ### which exceptions the point arithmetic can raise -/
+
+/-- the exceptions raised inside `ellipticcurve.py`'s arithmetic (`Model/Curve.lean`): a failed `assert`, `ValueError`
+(non-invertible element / points of different curves), `AttributeError` (`INFINITY.scale()`) -/
+def ArithErr (e : PyErr) : Prop := e = .assertionError ∨ e = .valueError ∨ e = .attributeError
+
+theorem bind_err {α β : Type} {x : Res α} {f : α → Res β} {e : PyErr} (h : (x >>= f) = .error e) :
+    x = .error e ∨ ∃ v, x = .ok v ∧ f v = .error e := by
+  cases x with
+  | error e' => left; simpa [bind, Except.bind] using h
+  | ok v => right; exact ⟨v, rfl, by simpa [bind, Except.bind] using h⟩
+
+theorem inverseMod_err {a m : Int} {e} (h : inverseMod a m = .error e) : ArithErr e := by
+  unfold inverseMod powInv at h
+  split at h
+  · cases h
+  · split at h
+    · cases h; exact Or.inr (Or.inl rfl)
+    · simp only at h; split at h
+      · cases h
+      · cases h; exact Or.inr (Or.inl rfl)
+
+theorem mkPoint_err {c x y o e} (h : mkPoint c x y o = .error e) : ArithErr e := by
+  unfold mkPoint at h; split at h
+  · cases h
+  · cases h; exact Or.inl rfl
+
+theorem pjX_err {P e} (h : pjX P = .error e) : ArithErr e := by
+  unfold pjX at h; split at h
+  · cases h
+  · rcases bind_err h with h | ⟨v, _, h⟩
+    · exact inverseMod_err h
+    · cases h
+
+theorem pjY_err {P e} (h : pjY P = .error e) : ArithErr e := by
+  unfold pjY at h; split at h
+  · cases h
+  · rcases bind_err h with h | ⟨v, _, h⟩
+    · exact inverseMod_err h
+    · cases h
+
+theorem pjScale_err {P e} (h : pjScale P = .error e) : ArithErr e := by
+  unfold pjScale at h; split at h
+  · cases h
+  · rcases bind_err h with h | ⟨v, _, h⟩
+    · exact inverseMod_err h
+    · cases h
+
+theorem tableLoop_err (bound i : Int) (hi : 0 < i) (D : PJ) (acc : List (Int × Int)) {e} (h : tableLoop bound i hi D acc = .error e) :
+    ArithErr e := by
+  induction i, hi, D, acc using tableLoop.induct bound with
+  | case1 i hi D acc hlt D' hd ih =>
+    unfold tableLoop at h
+    rw [dif_pos hlt] at h
+    simp only [hd] at h
+    rcases bind_err h with h | ⟨S, _, h⟩
+    · exact pjScale_err h
+    rcases bind_err h with h | ⟨x, _, h⟩
+    · exact pjX_err h
+    rcases bind_err h with h | ⟨y, _, h⟩
+    · exact pjY_err h
+    exact ih S x y h
+  | case2 i hi D acc hlt hno =>
+    unfold tableLoop at h
+    rw [dif_pos hlt] at h
+    split at h
+    · rename_i D' hd; exact absurd hd (hno D')
+    · cases h; exact Or.inr (Or.inr rfl)
+  | case3 i hi D acc hge =>
+    unfold tableLoop at h
+    rw [dif_neg hge] at h
+    cases h
+
+theorem precomputeTable_err {P e} (h : precomputeTable P = .error e) : ArithErr e := by
+  unfold precomputeTable at h
+  split at h
+  · cases h; exact Or.inl rfl
+  · simp only at h
+    rcases bind_err h with h | ⟨x, _, h⟩
+    · exact pjX_err h
+    rcases bind_err h with h | ⟨y, _, h⟩
+    · exact pjY_err h
+    exact tableLoop_err _ _ _ _ _ h
+
+theorem maybePrecompute_err {P pre e} (h : maybePrecompute P pre = .error e) : ArithErr e := by
+  unfold maybePrecompute at h
+  split at h
+  · cases h
+  · exact precomputeTable_err h
+
+theorem pjMulWith_err {pre P k e} (h : pjMulWith pre P k = .error e) : ArithErr e := by
+  unfold pjMulWith at h
+  split at h
+  · cases h
+  split at h
+  · cases h
+  simp only at h
+  rcases bind_err h with h | ⟨t, _, h⟩
+  · exact maybePrecompute_err h
+  split at h
+  · cases h
+  rcases bind_err h with h | ⟨S, _, h⟩
+  · exact pjScale_err h
+  cases h
+
+theorem pjAddCore_err {P Q e} (h : pjAddCore P Q = .error e) : ArithErr e := by
+  unfold pjAddCore at h; split at h
+  · cases h; exact Or.inr (Or.inl rfl)
+  · cases h
+
+theorem pjAdd_err {P o e} (h : pjAdd P o = .error e) : ArithErr e := by
+  unfold pjAdd at h; split at h
+  · cases h
+  · split at h
+    · cases h
+    · split at h
+      · cases h
+      · exact pjAddCore_err h
+    · exact pjAddCore_err h
+
+theorem affDouble_err {P e} (h : affDouble P = .error e) : ArithErr e := by
+  unfold affDouble at h
+  rcases bind_err h with h | ⟨v, _, h⟩
+  · exact inverseMod_err h
+  rcases bind_err h with h | ⟨R, _, h⟩
+  · exact mkPoint_err h
+  cases h
+
+theorem affAdd_err {P o e} (h : affAdd P o = .error e) : ArithErr e := by
+  unfold affAdd at h
+  split at h
+  · exact pjAdd_err h
+  · cases h
+  · split at h
+    · cases h; exact Or.inl rfl
+    split at h
+    · split at h
+      · cases h
+      · exact affDouble_err h
+    · rcases bind_err h with h | ⟨v, _, h⟩
+      · exact inverseMod_err h
+      rcases bind_err h with h | ⟨R, _, h⟩
+      · exact mkPoint_err h
+      cases h
+
+theorem ptDouble_err {P e} (h : ptDouble P = .error e) : ArithErr e := by
+  unfold ptDouble at h
+  split at h
+  · cases h
+  · cases h
+  · exact affDouble_err h
+
+theorem ptAdd_err {P Q e} (h : ptAdd P Q = .error e) : ArithErr e := by
+  unfold ptAdd at h
+  split at h
+  · exact pjAdd_err h
+  · cases h
+  · cases h
+  · exact pjAdd_err h
+  · exact affAdd_err h
+
+theorem affMulLoop_err (self negSelf : Pt) (e e3 : Nat) (i : Nat) (result : Pt) {er} (h : affMulLoop self negSelf e e3 i result = .error er) :
+    ArithErr er := by
+  induction i, result using affMulLoop.induct with
+  | case1 i result hi ih =>
+    unfold affMulLoop at h
+    rw [dif_pos hi] at h
+    rcases bind_err h with h | ⟨r1, _, h⟩
+    · exact ptDouble_err h
+    simp only at h
+    have tail : ∀ r : Pt, (if (e3 &&& i == 0 && e &&& i != 0) = true then ptAdd r negSelf >>= fun r => affMulLoop self negSelf e e3 (i / 2) r
+        else pure r >>= fun r => affMulLoop self negSelf e e3 (i / 2) r) = .error er → ArithErr er := by
+      intro r h
+      split at h
+      · rcases bind_err h with h | ⟨r3, _, h⟩
+        · exact ptAdd_err h
+        · exact ih r3 h
+      · exact ih r h
+    split at h
+    · rcases bind_err h with h | ⟨r2, _, h⟩
+      · exact ptAdd_err h
+      · exact tail r2 h
+    · exact tail r1 h
+  | case2 i result hi =>
+    unfold affMulLoop at h
+    rw [dif_neg hi] at h
+    cases h
+
+theorem affMulPos_err {P k e} (h : affMulPos P k = .error e) : ArithErr e := by
+  unfold affMulPos at h
+  rcases bind_err h with h | ⟨N, _, h⟩
+  · exact mkPoint_err h
+  exact affMulLoop_err _ _ _ _ _ _ h
+
+theorem affMul_err {P k e} (h : affMul P k = .error e) : ArithErr e := by
+  unfold affMul at h
+  simp only at h
+  have key : ∀ c : Bool, (if c = true then (.ok .infinity : Res Pt) else if k < 0 then (do let N ← affNeg P; affMulPos N (-k))
+      else affMulPos P k) = .error e → ArithErr e := by
+    intro c h
+    split at h
+    · cases h
+    split at h
+    · rcases bind_err h with h | ⟨N, _, h⟩
+      · exact mkPoint_err h
+      exact affMulPos_err h
+    · exact affMulPos_err h
+  exact key _ h
+
+/-- **mul_errors** — `point * k` of the model raises nothing but the three arithmetic exceptions, for every point value
+(also one not on the curve) and every integer -/
+theorem mul_errors (pre : List (Int × Int)) (P : Pt) (k : Int) (e : PyErr) (h : ptMulWith pre P k = .error e) : ArithErr e := by
+  unfold ptMulWith at h
+  split at h
+  · cases h
+  · exact pjMulWith_err h
+  · exact affMul_err h
+
+theorem ArithErr.ne {e} (h : ArithErr e) : e ≠ .noKey ∧ e ≠ .invalidCurve := by
+  rcases h with rfl | rfl | rfl <;> exact ⟨by decide, by decide⟩
+
+/-- **secret_refusals_only_driver** — `C05.secret_refusals_only` with its two hypotheses discharged for the environment of the
+model driver, every curve list and every state: `generate_sharedsecret()` raises `NoKeyError` only if a key is missing, and
+`InvalidCurveError` only if both keys are present and the three curve objects are not all the same -/
+theorem secret_refusals_only_driver (cs : Array EcdhWire.CParams) (s : State Nat EcdhWire.WPt) :
+    (getSharedSecret (EcdhWire.env cs) s = .error .noKey → s.priv = none ∨ s.pub = none) ∧
+    (getSharedSecret (EcdhWire.env cs) s = .error .invalidCurve →
+      ∃ sk vk, s.priv = some sk ∧ s.pub = some vk ∧ ¬ (s.curve = some sk.curve ∧ vk.curve = sk.curve)) := by
+  refine C05.secret_refusals_only (EcdhWire.env cs) s ?_ ?_
+  · intro P k e h
+    exact (mul_errors [] P k e h).ne
+  · intro P e h
+    cases P with
+    | jac J => exact (pjX_err (P := J) h).ne
+    | aff A => cases h
+    | infinity =>
+      have : e = .other := by
+        have h' : (Except.error PyErr.other : Res Int) = .error e := h
+        exact (Except.error.inj h').symm
+      subst this
+      exact ⟨by decide, by decide⟩
+
+/-- non-vacuity: the refusals and an arithmetic exception do occur — an empty object raises `NoKeyError`; multiplying a
+generator-flagged point without an order raises `AssertionError` (`_maybe_precompute`) -/
+example : getSharedSecret (EcdhWire.env #[]) ⟨none, none, none⟩ = .error .noKey ∧
+    ptMulWith [] (.jac ⟨⟨11, 1, 6, none⟩, 2, 4, 1, none, true⟩) 2 = .error .assertionError ∧ ArithErr .assertionError :=
+  ⟨rfl, by decide, Or.inl rfl⟩
+
 end C05g
